@@ -38,6 +38,15 @@ Bad(e) ==
     [] e.fn = "remove_object" ->
          IF e.out.ok /\ e.out.big THEN {}       \* an arc beyond 31 bits: outside the model
          ELSE DecBad(DecOid(e.inp), e.out, {"arcs", "rest"})
+    \* a TLV whose body is too long to ship (64 KiB and beyond): e.hdr = the tag and length octets as offered, e.have = the
+    \* number of octets that follow the header.  Accepted iff the tag is the reader's, the length octets are the canonical
+    \* encoding of a length <= e.have; then the body has that many octets and the remainder the others.
+    [] e.fn = "bigtlv" ->
+         LET d == DecLen(Tail(e.hdr))
+             good == e.hdr[1] = e.tag /\ ~IsOod(d) /\ d.ok /\ d.used = Len(e.hdr) - 1 /\ d.len <= e.have
+         IN  DecBad(IF good THEN [ok |-> TRUE, bodylen |-> d.len, restlen |-> e.have - d.len, same |-> TRUE] ELSE Reject,
+                    e.out, {"bodylen", "restlen", "same"})
+    [] e.fn = "biglen" -> EncBad(e.out, EncLen(e.l))
     [] e.fn = "encode_integer" -> EncBad(e.out, EncInt(e.v))
     [] e.fn = "encode_length" -> EncBad(e.out, EncLen(e.l))
     [] e.fn = "encode_oid" -> EncBad(e.out, EncOid(e.arcs))
